@@ -1,7 +1,50 @@
-import Driver.Proto
+import Driver.BusUtil
 namespace Driver
+open GbVerif
 
-/-- C10 correspondence (stub) -/
-def checkC10 (l : Line) : Verdict := .bad s!"stream {l.stream} not implemented"
+/-- C10: per-region digests of the whole 64 KiB read image after a write history -/
+def checkC10 (l : Line) : Verdict := Id.run do
+  let hist := parsePairs (l.inS "hist")
+  let ds := parseNatList (l.outS "d")
+  let io := parseBytes (l.outS "io")
+  if ds.length != 12 || io.size != 128 then return .bad "malformed outputs"
+  -- spec
+  let mut sm := mkSpec l
+  for (a, v) in hist do sm := BusSpec.write sm a v
+  let names := ["rom0", "romx", "vram", "cram", "wram0", "wramx", "echo", "oam", "unused", "io", "hram", "ie"]
+  let mut k := 0
+  for (lo, hi) in windows do
+    if k != 9 then
+      let d := digestRange (BusSpec.read sm) lo hi
+      if d.toNat != ds.getD k 0 then
+        return .specDiff s!"region {names.getD k ""} [{lo},{hi}) differs from the memory-map spec after the history"
+    k := k + 1
+  -- I/O: unassigned addresses read 0xff; the last write's defined bits read back
+  for low in [0:128] do
+    if BusSpec.ioUnassigned low && io[low]! != 0xff then
+      return .specDiff s!"unassigned I/O 0xff{low} reads {io[low]!}"
+  match hist.getLast? with
+  | some (a, v) =>
+    if 0xff00 ≤ a && a < 0xff80 then
+      let low := a - 0xff00
+      let m := BusSpec.ioMask low
+      if (io[low]! &&& m) != (v &&& m) then
+        return .specDiff s!"I/O register 0xff{low}: wrote {v}, reads {io[low]!} (defined bits {m})"
+  | none => pure ()
+  if l.outS "fd" != l.outS "rd" then return .specDiff "instruction fetch view differs from data reads in ROM/WRAM/HRAM"
+  -- model
+  let mut s := mkBus l
+  for (a, v) in hist do
+    match Bus.write s a v with
+    | .ok s' => s := s'
+    | .error _ => return .modelDiff s!"model panics on write {a}:{v} but the implementation survived"
+  let md := modelDigests s
+  k := 0
+  for d in md do
+    if d.toNat != ds.getD k 0 then return .modelDiff s!"region {names.getD k ""} digest model={d} impl={ds.getD k 0}"
+    k := k + 1
+  for low in [0:128] do
+    if busRd s (0xff00 + low) != io[low]! then return .modelDiff s!"io 0xff{low} model={busRd s (0xff00 + low)} impl={io[low]!}"
+  return .ok (hist.any fun (a, _) => a ≥ 0x2000)
 
 end Driver
